@@ -162,7 +162,7 @@ func (nm LNumber) Format(f fmt.State, c rune) {
 		} else {
 			formatInteger(f, 'd', false, uint64(v))
 		}
-	case 'o', 'x', 'X':
+	case 'o', 'u', 'x', 'X':
 		// unsigned conversions: C prints the two's complement of a negative value
 		formatInteger(unsignedFmtState{f}, c, false, uint64(int64(nm)))
 	case 'e', 'E', 'f', 'F', 'g', 'G':
